@@ -99,6 +99,15 @@ const parsec_termdet_module_t parsec_termdet_local_module = {
 #define PARSEC_TERMDET_LOCAL_BUSY        ((void*)(0x2))
 #define PARSEC_TERMDET_LOCAL_TERMINATING ((void*)(0x3))
 
+/* A thread that brought nb_pending_actions to 0 while the taskpool was still
+ * NOT_READY can be delayed before it looks at the monitor. In the meantime
+ * the user can legally add work and call taskpool_ready(), so the delayed
+ * thread would observe BUSY together with its stale zero and declare
+ * termination with tasks pending. Once BUSY, the counter can only leave 0
+ * through a caller that holds a task or an action, so re-reading it after
+ * the monitor tells a real zero from a stale one. */
+#define PARSEC_TERMDET_LOCAL_STILL_IDLE(tp) (0 == (tp)->nb_pending_actions)
+
 static void parsec_termdet_local_monitor_taskpool(parsec_taskpool_t *tp,
                                                   parsec_termdet_termination_detected_function_t cb)
 {
@@ -189,7 +198,7 @@ static int32_t parsec_termdet_local_taskpool_set_nb_tasks(parsec_taskpool_t *tp,
             nbpa = parsec_atomic_fetch_dec_int32(&tp->nb_pending_actions) - 1;
             PARSEC_DEBUG_VERBOSE(10, parsec_debug_output, "TERMDET-LOCAL:\tTASKPOOL %p  NB_PA %d -> %d", tp, nbpa+1, nbpa);
         }
-        if( tp->tdm.monitor == PARSEC_TERMDET_LOCAL_BUSY && nbpa == 0 ) {
+        if( tp->tdm.monitor == PARSEC_TERMDET_LOCAL_BUSY && nbpa == 0 && PARSEC_TERMDET_LOCAL_STILL_IDLE(tp) ) {
             PARSEC_DEBUG_VERBOSE(10, parsec_debug_output, "TERMDET-LOCAL:\tTASKPOOL %p nbpa == 0", tp);
             if( parsec_atomic_cas_ptr(&tp->tdm.monitor, PARSEC_TERMDET_LOCAL_BUSY, PARSEC_TERMDET_LOCAL_TERMINATING) ) {
                 parsec_termdet_local_termination_detected(tp);
@@ -207,7 +216,7 @@ static int32_t parsec_termdet_local_taskpool_set_runtime_actions(parsec_taskpool
     do {
         ov = tp->nb_pending_actions;
     } while(!parsec_atomic_cas_int32(&tp->nb_pending_actions, ov, v));
-    if( tp->tdm.monitor == PARSEC_TERMDET_LOCAL_BUSY && v == 0 ) {
+    if( tp->tdm.monitor == PARSEC_TERMDET_LOCAL_BUSY && v == 0 && PARSEC_TERMDET_LOCAL_STILL_IDLE(tp) ) {
         if( parsec_atomic_cas_ptr(&tp->tdm.monitor, PARSEC_TERMDET_LOCAL_BUSY, PARSEC_TERMDET_LOCAL_TERMINATING) ) {
             parsec_termdet_local_termination_detected(tp);
         }
@@ -232,7 +241,7 @@ static int32_t parsec_termdet_local_taskpool_addto_nb_tasks(parsec_taskpool_t *t
         assert(nbpa >= 0);
         PARSEC_DEBUG_VERBOSE(10, parsec_debug_output, "TERMDET-LOCAL:\tTASKPOOL %p  NB_PA %d -> %d", tp, nbpa+1, nbpa);
     }
-    if( tp->tdm.monitor == PARSEC_TERMDET_LOCAL_BUSY && nbpa == 0 ) {
+    if( tp->tdm.monitor == PARSEC_TERMDET_LOCAL_BUSY && nbpa == 0 && PARSEC_TERMDET_LOCAL_STILL_IDLE(tp) ) {
         if( parsec_atomic_cas_ptr(&tp->tdm.monitor, PARSEC_TERMDET_LOCAL_BUSY, PARSEC_TERMDET_LOCAL_TERMINATING) ) {
             parsec_termdet_local_termination_detected(tp);
        }
@@ -249,7 +258,7 @@ static int32_t parsec_termdet_local_taskpool_addto_runtime_actions(parsec_taskpo
         return tp->nb_pending_actions;
     ov = parsec_atomic_fetch_add_int32(&tp->nb_pending_actions, v);
     assert(ov+v >= 0);
-    if( tp->tdm.monitor == PARSEC_TERMDET_LOCAL_BUSY && ov+v == 0 ) {
+    if( tp->tdm.monitor == PARSEC_TERMDET_LOCAL_BUSY && ov+v == 0 && PARSEC_TERMDET_LOCAL_STILL_IDLE(tp) ) {
         if( parsec_atomic_cas_ptr(&tp->tdm.monitor, PARSEC_TERMDET_LOCAL_BUSY, PARSEC_TERMDET_LOCAL_TERMINATING) ) {
             parsec_termdet_local_termination_detected(tp);
         }
